@@ -448,7 +448,7 @@ func runChildClose(c *core.Ctx) {
 }
 
 func isBufHelper(fn *ssa.Function) bool {
-	return strings.Contains(fn.Name(), "newClosedBufCh") || strings.Contains(fn.Name(), "newBufCh")
+	return strings.Contains(an.ShortName(fn), "newClosedBufCh") || strings.Contains(an.ShortName(fn), "newBufCh")
 }
 
 func runStartEnd(c *core.Ctx) {
@@ -574,7 +574,7 @@ func runUnsubAll(c *core.Ctx) {
 
 func reachesNamed(P *core.Program, fn *ssa.Function, suffix string) bool {
 	for _, f := range an.RefClosure([]*ssa.Function{fn}, P.InModule) {
-		if strings.HasSuffix(f.String(), suffix) {
+		if strings.HasSuffix(an.FuncFullName(f), suffix) {
 			return true
 		}
 	}
